@@ -201,7 +201,6 @@ def errStr : Err → String
   | .noIndex => "E:noindex"
   | .tooNested => "E:toonested"
   | .notReversible => "E:notrev"
-  | .display => "E:display"
   | .diverge => "E:diverge"
 
 def outStr (o : Out) : String :=
